@@ -69,7 +69,6 @@ package encode
 //@   ensures [C08.enc.angle.len C01.enc.angle] (and (= (spec.numLen (select (arr *b) start)) result) (or (= result (int 1)) (= result (int 2)) (= result (int 4))))
 
 //@ contract (*Encoder).quantize
-//@   note counts C02
 //@   let inrange (and (fp.leq ((_ to_fp 8 24) RNE (- 128.0)) coord) (fp.lt coord ((_ to_fp 8 24) RNE 128.0)))
 //@   let c64 (fp.mul RNE ((_ to_fp 11 53) RNE coord) ((_ to_fp 11 53) RNE 64.0))
 //@   let r64 (fp.mul RNE ((_ to_fp 11 53) RNE result) ((_ to_fp 11 53) RNE 64.0))
